@@ -7,7 +7,7 @@
 //! the adapter is transparent. No state of remoc is exposed.
 
 use std::{
-    cell::RefCell,
+    cell::{Cell, RefCell},
     future::Future,
     pin::Pin,
     task::{Context, Poll},
@@ -20,6 +20,16 @@ const MAX_CONSECUTIVE: u8 = 3;
 
 thread_local! {
     static DECIDER: RefCell<Option<Box<dyn FnMut() -> bool>>> = const { RefCell::new(None) };
+    static PARKED: Cell<bool> = const { Cell::new(false) };
+}
+
+/// Parks (or releases) all wrapped tasks of the current thread.
+///
+/// While parked, a wrapped task returns `Pending` without being polled and without waking
+/// itself. A harness that detects a livelock on a paused clock (tasks waking each other without
+/// end) uses this to let virtual time advance to its own deadlines.
+pub fn set_parked(parked: bool) {
+    PARKED.with(|p| p.set(parked));
 }
 
 /// Installs (or removes) the decision function for the current thread.
@@ -57,6 +67,9 @@ impl<F: Future> Future for Deferred<F> {
     type Output = F::Output;
 
     fn poll(mut self: Pin<&mut Self>, cx: &mut Context<'_>) -> Poll<Self::Output> {
+        if PARKED.with(|p| p.get()) {
+            return Poll::Pending;
+        }
         if self.consecutive < MAX_CONSECUTIVE && decide() {
             self.consecutive += 1;
             cx.waker().wake_by_ref();
